@@ -150,8 +150,38 @@ theorem cd_sync (c : Cfg) (s : St) (a : CdArg) (f : Bool) (h : Sync c s) : Sync 
 theorem dirs_sync (c : Cfg) (s : St) (a : DArg) (h : Sync c s) : Sync c (dirs c s a).1 := by
   rcases dirs_state c s a with e | ⟨_, e⟩ <;> rw [e] <;> exact h
 
-theorem step_sync (c : Cfg) (s : St) (op : Op) (h : Sync c s) : Sync (step c s op).1 (step c s op).2.1 := by
+/-- symlink targets are not themselves symlinks of the model (`realpath` is idempotent) -/
+def RealIdem (c : Cfg) : Prop := ∀ p, real c (real c p) = real c p
+
+/-- the post-command resynchronisation leaves a state that is in step untouched — in particular
+it never overwrites `$OLDPWD` when the directory was entered through a symlink -/
+theorem C16_fix_cwd_noop (c : Cfg) (s : St) (hr : RealIdem c) (h : Sync c s) : fixCwd c s = s := by
+  unfold fixCwd
+  have : real c s.cwd = real c s.pwd := by rw [h, hr]
+  simp [this]
+
+/-- after something changed the process directory behind the shell's back, the resynchronisation
+makes `$PWD` name it again and remembers where we were in `$OLDPWD` -/
+theorem C16_fix_cwd_resync (c : Cfg) (s : St) (hr : RealIdem c) (hphys : real c s.cwd = s.cwd) :
+    Sync c (fixCwd c s) ∧ ((fixCwd c s).pwd ≠ s.pwd → (fixCwd c s).oldpwd = some s.pwd) := by
+  unfold fixCwd
+  by_cases h : real c s.cwd = real c s.pwd
+  · simp only [h, bne_self_eq_false, Bool.false_eq_true, if_false]
+    exact ⟨by unfold Sync; rw [← h, hphys], fun hne => absurd rfl hne⟩
+  · have : (real c s.cwd != real c s.pwd) = true := by simpa using h
+    simp only [this, if_true]
+    exact ⟨by unfold Sync; exact hphys.symm, fun _ => trivial⟩
+
+/-- operations of the shell itself (everything except an external chdir) -/
+def DirStack.Op.internal : Op → Bool
+  | .extChdir _ => false
+  | _ => true
+
+theorem step_sync (c : Cfg) (s : St) (op : Op) (hr : RealIdem c) (hi : op.internal = true) (h : Sync c s) :
+    Sync (step c s op).1 (step c s op).2.1 := by
   cases op with
+  | fixCwd => simp only [step]; rw [C16_fix_cwd_noop c s hr h]; exact h
+  | extChdir p => simp [DirStack.Op.internal] at hi
   | cd a f => exact cd_sync c s a f h
   | pushd a d => exact pushd_sync c s a d h
   | popd a d => exact popd_sync c s a d h
@@ -162,13 +192,20 @@ theorem step_sync (c : Cfg) (s : St) (op : Op) (h : Sync c s) : Sync (step c s o
 
 /-- C16 (main invariant): after ANY sequence of cd / pushd / popd / dirs commands, configuration
 changes and directories appearing or disappearing, `$PWD` names the process's working directory -/
-theorem C16_sync (c : Cfg) (s : St) (ops : List Op) (h : Sync c s) :
+theorem step_links (c : Cfg) (s : St) (op : Op) : (step c s op).1.links = c.links := by
+  cases op <;> rfl
+
+theorem C16_sync (c : Cfg) (s : St) (ops : List Op) (hr : RealIdem c)
+    (hi : ∀ op ∈ ops, op.internal = true) (h : Sync c s) :
     Sync (run c s ops).1 (run c s ops).2 := by
   induction ops generalizing c s with
   | nil => exact h
   | cons op rest ih =>
     simp only [run]
-    exact ih _ _ (step_sync c s op h)
+    have hr' : RealIdem (step c s op).1 := by
+      intro p; unfold real; rw [step_links]; exact hr p
+    exact ih _ _ hr' (fun o ho => hi o (List.mem_cons_of_mem _ ho))
+      (step_sync c s op hr (hi op (by simp)) h)
 
 /-! ## `$OLDPWD` is the previous directory -/
 
@@ -220,6 +257,14 @@ theorem C16_oldpwd (c : Cfg) (s : St) (op : Op) (h : (step c s op).2.1.pwd ≠ s
   | rmdir p => exact absurd rfl h
   | mkdir p => exact absurd rfl h
   | setCfg a m z => exact absurd rfl h
+  | extChdir p =>
+    simp only [step] at h
+    split at h <;> exact absurd rfl h
+  | fixCwd =>
+    simp only [step, fixCwd] at h ⊢
+    split
+    · rfl
+    · rename_i hc; simp [hc] at h
 
 /-! ## a failed operation (rc 1) changes nothing -/
 
@@ -257,6 +302,8 @@ theorem C16_error_unchanged (c : Cfg) (s : St) (op : Op) (h : (step c s op).2.2.
   | rmdir p => simp [step, Out.rc] at h
   | mkdir p => simp [step, Out.rc] at h
   | setCfg a m z => simp [step, Out.rc] at h
+  | fixCwd => simp [step, Out.rc] at h
+  | extChdir p => simp [step, Out.rc] at h
 
 /-! ## the stack is capped after every successful pushd -/
 
@@ -423,6 +470,12 @@ theorem C16_rotation_top_partial (l : List Path) (k : Nat) (t : Path) (h : l[k]?
 /-! ## non-vacuity -/
 
 example : Sync wCfg ⟨6, none, [], 2, wFs⟩ := by unfold Sync; decide
+example : RealIdem wCfg := by
+  intro p; unfold real wCfg
+  by_cases h : p = 6
+  · subst h; decide
+  · have : (p == 6) = false := by simpa using h
+    simp [List.lookup, this]
 example : kind wCfg ⟨0, none, [], 0, wFs⟩ 6 = .dir := by decide
 example : (run wCfg ⟨0, none, [], 0, wFs⟩ [.pushd (.path 1) true, .pushd (.path 6) true, .cd .dash false]).2.pwd = 1 := by
   decide
